@@ -36,7 +36,7 @@ def gen_linear(rng):
 def linear_failure(c):
     pattern = cl.pattern_from_desc(c['desc'])
     fy, fx = c['shape']
-    D = masks.circular(centerX=c['true'][1], centerY=c['true'][0], imageSizeX=fx, imageSizeY=fy, radius=c['desc']['radius'], antialiased=True).astype(np.float64)
+    D = cl.render_disk(c['true'][0], c['true'][1], fy, fx, c['desc']['radius'], True).astype(np.float64)
     frame = (c['bg'] * (1 + c['contrast'] * D))[np.newaxis].astype(np.float32)
     start = (int(round(c['true'][0])) + c['off'][0], int(round(c['true'][1])) + c['off'][1])
     # all start positions of a grid within the capture range are passed in ONE call (several blocks for large crops)
@@ -82,7 +82,7 @@ def linear_failure(c):
         moves = [(0.0, 0.0), (2.3, -1.6), (-1.2, 2.7)]
         fr = []
         for (my, mx) in moves:
-            Dm = masks.circular(centerX=c['true'][1] + mx, centerY=c['true'][0] + my, imageSizeX=fx, imageSizeY=fy, radius=c['desc']['radius'], antialiased=True).astype(np.float64)
+            Dm = cl.render_disk(c['true'][0] + my, c['true'][1] + mx, fy, fx, c['desc']['radius'], True).astype(np.float64)
             fr.append(c['bg'] * (1 + c['contrast'] * Dm))
         stack = np.array(fr, dtype=np.float32)
         for name, fn in (('process_frames_full', cc.process_frames_full), ('process_frames_fast', cc.process_frames_fast)):
@@ -181,7 +181,7 @@ def run(ctx):
         cs = pattern.get_crop_size()
         fy, fx = int(rng.integers(2 * cs + 1, 13)), int(rng.integers(2 * cs + 1, 13))
         true = (float(rng.uniform(cs, fy - cs)), float(rng.uniform(cs, fx - cs)))
-        D = masks.circular(centerX=true[1], centerY=true[0], imageSizeX=fx, imageSizeY=fy, radius=radius, antialiased=True)
+        D = cl.render_disk(true[0], true[1], fy, fx, radius, True)
         ints = np.rint(10 + 200 * D).astype(np.int64)
         start = (int(round(true[0])), int(round(true[1])))
         method = 'fast' if len(items) % 2 == 0 else 'full'
